@@ -56,11 +56,14 @@ from pbt.run import Violation
 from treadmill import appcfg
 from treadmill import appcfgmgr
 from treadmill import cleanup as tm_cleanup
+from treadmill import context
 from treadmill import eventmgr
 from treadmill import exc
 from treadmill import fs
 from treadmill import monitor
 from treadmill import supervisor
+from treadmill import utils
+from treadmill.appcfg import manifest as app_manifest
 
 INSTANCES = [
     'proid.web#0000000007',
@@ -156,6 +159,8 @@ class NodeSim(object):
         self._patch(appcfg, 'os', _OsProxy(self))
         self._patch(appcfgmgr.app_cfg, 'configure', self._configure)
         self._patch(supervisor, 'control_svscan', lambda *a, **kw: None)
+        context.GLOBAL.cell = 'verifcell'
+        context.GLOBAL.zk.url = 'zookeeper://foo@localhost:2181/treadmill'
         self._patch(tm_cleanup.app_runtime, 'get_runtime',
                     lambda _rt, _env, cdir, _param=None: _Runtime(cdir))
         self._new_manager()
@@ -195,16 +200,21 @@ class NodeSim(object):
     # -- stand-in for treadmill.appcfg.configure.configure ----------------------
 
     def _configure(self, tm_env, event, _runtime, _runtime_param=None):
+        # configure(): the REAL appcfg.manifest.load builds the runtime
+        # manifest from the cache file (the runtime class hook and the
+        # features need entry points and are left out); the container is
+        # named from that manifest exactly as configure() does
         try:
             manifest = self._read_manifest(event)
+            loaded = None
+            if manifest['ok'] or manifest['gen'] % 2 == 0:
+                loaded = app_manifest.load(event)   # raises on invalid ones
         except IOError:
             return None                     # "File is gone. Nothing to do."
         instance = os.path.basename(event)
         if not manifest['ok']:
-            if manifest['gen'] % 2:
-                raise exc.ContainerSetupError('cannot configure %s' % instance)
-            raise Exception('cannot configure %s' % instance)
-        uniq = appcfg.eventfile_unique_name(event)
+            raise exc.ContainerSetupError('cannot configure %s' % instance)
+        uniq = appcfg.app_unique_name(utils.to_obj(loaded))
         container_dir = os.path.join(tm_env.apps_dir, uniq)
         existed = os.path.isdir(container_dir)
         fs.mkdir_safe(os.path.join(container_dir, 'data'))
@@ -476,7 +486,39 @@ class NodeSim(object):
             self.stats.count('ctime_nudged_off_8192us_collision')
         return ino, self.clock_us
 
-    def op_put(self, idx, okay, reuse=0, dt_us=1000457):
+    def _manifest_body(self, inst, okay, extra):
+        """What eventmgr caches: the scheduled manifest + placement data +
+        task.  `extra` adds keys that the runtime manifest itself produces
+        (a manifest scheduled from a dump of some container's app.json /
+        state): they must not change which container the entry denotes."""
+        body = {
+            'proid': inst.split('.')[0],
+            'environment': 'dev' if okay else 'no-such-environment',
+            'services': [{'name': 'web', 'command': '/bin/sleep 5',
+                          'restart': {'limit': 3, 'interval': 60}}],
+            'cpu': '10%', 'memory': '100M', 'disk': '100M',
+            'endpoints': [{'name': 'http', 'port': 8000}],
+            'task': inst.split('#')[1],
+        }
+        other = INSTANCES[(INSTANCES.index(inst) + 1) % len(INSTANCES)]
+        if extra in (1, 3):
+            body['uniqueid'] = '0000rQzY1dX3a'
+        if extra in (2, 3):
+            body['name'] = other
+            body['app'] = other.split('#')[0]
+        if extra == 3:
+            body.update({
+                'type': 'native', 'cell': 'othercell', 'system_services': [],
+                'zookeeper': 'zookeeper://bar@elsewhere:2181/treadmill',
+                'shared_network': False, 'shared_ip': False, 'archive': [],
+                'vring': {'cells': []}, 'passthrough': [],
+                'ephemeral_ports': {'tcp': 0, 'udp': 0},
+            })
+        if extra:
+            self.stats.count('put_with_runtime_keys')
+        return body
+
+    def op_put(self, idx, okay, reuse=0, dt_us=1000457, extra=0):
         inst = INSTANCES[idx % len(INSTANCES)]
         path = self._p('cache', inst)
         if os.path.exists(path):
@@ -489,8 +531,9 @@ class NodeSim(object):
             if self.active and self.links('running').get(inst):
                 self.replaced_backlog = True
         ino, ctime_us = self._new_identity(inst, reuse, dt_us)
-        manifest = {'gen': self.next_gen, 'ok': bool(okay), 'task':
-                    inst.split('#')[1], 'ino': ino, 'ctime_us': ctime_us}
+        manifest = self._manifest_body(inst, okay, extra)
+        manifest.update({'gen': self.next_gen, 'ok': bool(okay),
+                         'ino': ino, 'ctime_us': ctime_us})
         self.next_gen += 1
         fs.write_safe(path, lambda f: json.dump(manifest, f),
                       prefix='.%s-' % inst, mode='w', permission=0o644)
